@@ -249,6 +249,28 @@ where
             })) if io_error.kind() == io::ErrorKind::NotFound => {
                 tracing::info!("No downsampled data cache, creating one now");
             }
+            Err(OpenError::Data(data::OpenError::File {
+                source: file::OpenError::Io(io_error),
+                path,
+            })) if io_error.kind() == io::ErrorKind::UnexpectedEof => {
+                // a crash while the cache was created can leave it cut off inside
+                // its own header, it holds nothing then: start over
+                tracing::warn!("Downsampled data cache is cut off in its header, recreating it");
+                for extension in ["byteseries", "byteseries_index"] {
+                    match std::fs::remove_file(path.with_extension(extension)) {
+                        Ok(()) => (),
+                        Err(e) if e.kind() == io::ErrorKind::NotFound => (),
+                        Err(e) => {
+                            return Err(OpenOrCreateError::Open(OpenError::Data(
+                                data::OpenError::File {
+                                    source: file::OpenError::Io(e),
+                                    path,
+                                },
+                            )))
+                        }
+                    }
+                }
+            }
             Err(e) => return Err(OpenOrCreateError::Open(e)),
         }
 
